@@ -208,6 +208,7 @@ type pathExec struct {
 	shaConcrete []concreteCompress
 	shaConcreteOverflow bool
 	inBlocked int
+	randDraws [][]*term // draws of the random source so far (distinctness assumption)
 	// innermost function of the panic most recently caught by verifrt.Catch
 	lastPanicSite string
 	// cooperative goroutines (verifrt.Goroutines)
@@ -607,17 +608,37 @@ func (ex *pathExec) onAlloc(fr *frame, n value, elemSize int64) {
 	if ob == nil {
 		return
 	}
-	if fr.fn.Pkg == nil || !(strings.HasPrefix(fr.fn.Pkg.Pkg.Path(), "github.com/tokenized/spynode") || strings.HasPrefix(fr.fn.Pkg.Pkg.Path(), "github.com/tokenized/pkg/")) {
+	judged := func(f *frame) bool {
+		if f.fn.Pkg == nil {
+			return false
+		}
+		p := f.fn.Pkg.Pkg.Path()
+		return strings.HasPrefix(p, "github.com/tokenized/spynode") || strings.HasPrefix(p, "github.com/tokenized/pkg/")
+	}
+	// the allocation is charged to the nearest frame of the repository (or of its tokenized/pkg
+	// dependency); allocations made on its behalf inside other packages (bytes.Buffer.Grow,
+	// io.ReadAll, ...) are judged when their size depends on the input
+	owner := fr
+	for owner != nil && !judged(owner) {
+		owner = owner.caller
+	}
+	if owner == nil {
 		return
 	}
-	if strings.Contains(fr.fn.Name(), "VerifHarness") || strings.HasPrefix(fr.fn.Name(), "vk") {
+	if _, symbolic := n.(sv); owner != fr && !symbolic {
+		return
+	}
+	if strings.Contains(owner.fn.Name(), "VerifHarness") || strings.HasPrefix(owner.fn.Name(), "vk") || strings.HasPrefix(owner.fn.Name(), "c20") || strings.HasPrefix(owner.fn.Name(), "c15") {
 		return
 	}
 	limit := ob.base + ob.perByte*ob.inputLen
 	where := fr.pos()
-	site := "alloc@" + fr.fn.RelString(fr.fn.Pkg.Pkg)
-	if !strings.HasPrefix(fr.fn.Pkg.Pkg.Path(), "github.com/tokenized/spynode") {
-		site = "alloc@" + fr.fn.String() // dependency: fully qualified
+	site := "alloc@" + owner.fn.RelString(owner.fn.Pkg.Pkg)
+	if !strings.HasPrefix(owner.fn.Pkg.Pkg.Path(), "github.com/tokenized/spynode") {
+		site = "alloc@" + owner.fn.String() // dependency: fully qualified
+	}
+	if owner != fr {
+		site += " via " + fr.fn.String()
 	}
 	s, isS := n.(sv)
 	if !isS {
